@@ -344,6 +344,13 @@ def run(chk):
                     e = gen_isa.expected(p)
                     got = dict(emitted_symbols(sd))
                     want = {k: v for k, v in e[2].items() if k not in noemit} if e[0] == "ok" else None
+                    if extra and not extra["BFLAG"] and not re.search(r"^BFLAG =", text, re.M):
+                        # the statement: exactly the declared, non-suppressed symbols - a boolean constant is one (finding F68)
+                        if "F68" in KNOWN:
+                            chk.known("F68", KNOWN["F68"]["observed"])
+                            chk.count("non_integer_constant_omitted_F68")
+                        else:
+                            err = "the declared constant BFLAG (a boolean) is not listed"
                     if extra and "BFLAG.sub" not in got:
                         err = "the label nested under a non-integer constant is not listed"
                     got.pop("BFLAG.sub", None)
